@@ -186,6 +186,9 @@ func (em *EModel) onEval(r *run, cycle uint64, re *ast.RuleEntry, cand bool) {
 	switch {
 	case !known || em.removed[name]:
 		r.violate("C06.eval-of-removed", fmt.Sprintf("EvaluateRuleEntry for %q which is not an active rule", name))
+		if known || strings.HasPrefix(name, "Deleted_") { // a removed rule answers to its tombstone name
+			r.violate("C16.removed-rule-evaluated", fmt.Sprintf("rule %s was evaluated in cycle %d although it had been removed from this instance", normName(name), em.cycle))
+		}
 		return
 	case em.retracted[name]:
 		r.violate("C10.eval-after-retract", fmt.Sprintf("rule %s was evaluated in cycle %d after it had been retracted", name, em.cycle))
@@ -221,6 +224,24 @@ func (em *EModel) onExecCallback(r *run, cycle uint64, re *ast.RuleEntry) {
 	em.onExec(r, re.RuleName)
 }
 
+// retractOutlivedCall: rules that are not evaluated although this call retracted nothing, on an instance that
+// has been used before, and that the instance still flags as retracted: a Retract of an EARLIER call is still
+// in force ("for the remainder of that Execute call", C10).
+func (em *EModel) retractOutlivedCall(r *run, missing []string) {
+	if len(r.sc.Calls) == 0 || len(em.retractCalls) > 0 || r.kb == nil {
+		return
+	}
+	var still []string
+	for _, n := range missing {
+		if r.kb.IsRuleRetracted(n) {
+			still = append(still, n)
+		}
+	}
+	if len(still) > 0 {
+		r.violate("C10.retract-outlives-call", fmt.Sprintf("rule(s) %v are not evaluated in this call, which retracted nothing: they are still flagged retracted from an earlier call on the same instance", still))
+	}
+}
+
 func (em *EModel) onExec(r *run, name string) {
 	if r.sc.Knobs.Listeners > 0 {
 		var missing []string
@@ -231,6 +252,7 @@ func (em *EModel) onExec(r *run, name string) {
 		}
 		if len(missing) > 0 {
 			r.violate("C06.missing-eval", fmt.Sprintf("cycle %d fires %s although %v were never reported evaluated", em.cycle, name, missing))
+			em.retractOutlivedCall(r, missing)
 			if len(em.retractCalls) > 0 {
 				r.violate("C10.retract-affected-other-rule", fmt.Sprintf("after Retract(%v) the rule(s) %v, which were not named, are no longer evaluated (cycle %d)", em.retractCalls, missing, em.cycle))
 			}
@@ -244,6 +266,9 @@ func (em *EModel) onExec(r *run, name string) {
 	switch {
 	case !known || em.removed[name]:
 		r.violate("C01.fired-removed", fmt.Sprintf("rule %q fired but is not an active rule (removed or unknown)", name))
+		if known || strings.HasPrefix(name, "Deleted_") {
+			r.violate("C16.removed-rule-fired", fmt.Sprintf("rule %s fired in cycle %d although it had been removed from this instance", normName(name), em.cycle))
+		}
 		return
 	case em.retracted[name]:
 		r.violate("C10.fired-retracted", fmt.Sprintf("rule %s fired after it had been retracted", name))
@@ -554,6 +579,7 @@ func (em *EModel) onReturn(r *run, err error) {
 			}
 			if len(missing) > 0 {
 				r.violate("C06.missing-eval", fmt.Sprintf("final cycle %d never reported %v", em.cycle, missing))
+				em.retractOutlivedCall(r, missing)
 				if len(em.retractCalls) > 0 {
 					r.violate("C10.retract-affected-other-rule", fmt.Sprintf("after Retract(%v) the rule(s) %v, which were not named, are no longer evaluated (cycle %d)", em.retractCalls, missing, em.cycle))
 				}
@@ -744,7 +770,9 @@ func related(p, v *grl.Path) bool {
 	for i := 0; i < n; i++ {
 		a, b := p.Steps[i], v.Steps[i]
 		if a.Sel != nil || b.Sel != nil {
-			return a.Sel != nil && b.Sel != nil // same container, any two selectors
+			// same container, any two selectors; and on a JSON object a selector against a member name
+			// (J["b"] is J.b, and a computed key may be any member): the container is the unit
+			return true
 		}
 		if a.Field != b.Field {
 			return false
@@ -871,6 +899,8 @@ func assignCell(m *grl.Model, a *grl.Action) string {
 	if n := len(a.Path.Steps); n > 0 {
 		last := a.Path.Steps[n-1]
 		switch {
+		case a.Path.Root == "J" && last.Sel != nil && last.Sel.LitK == "string":
+			shape = "json-member(selector-syntax)"
 		case a.Path.Root == "J" && last.Sel != nil:
 			shape = "json-array"
 		case a.Path.Root == "J":
